@@ -109,6 +109,7 @@ theorem c19_addImport_returns_shallow (k fuel : Nat) (r : Registry) (p : PkgRef)
             aliasOf r.aliases (stripVendorPath p.path)⟩) = some c)
     (heq : ∀ l, l < k → uniqueName (stripVendorPath p.path) l = uniqueName c.path l)
     (hd : uniqueName (stripVendorPath p.path) k ≠ uniqueName c.path k)
+    (hna : uniqueName (stripVendorPath p.path) k ≠ [])
     (hfa : ∀ x ∈ r.imports, x.qualifier = uniqueName (stripVendorPath p.path) k → x.path = c.path)
     (hfb : ∀ x ∈ r.imports, x.qualifier = uniqueName c.path k → x.path = c.path) :
     (addImport Ord.id (fuel + 1 + k) r p).isSome = true := by
@@ -116,7 +117,7 @@ theorem c19_addImport_returns_shallow (k fuel : Nat) (r : Registry) (p : PkgRef)
   · simp [addImport, hdst]
   · cases hnew : r.lookup (stripVendorPath p.path) with
     | some q => simp [addImport, hdst, hnew]
-    | none => rw [addImport_shallow k fuel r p c hdst hnew hc heq hd hfa hfb]; rfl
+    | none => rw [addImport_shallow k fuel r p c hdst hnew hc heq hd hna hfa hfb]; rfl
 
 end Moq
 
